@@ -182,7 +182,23 @@ func (fr *frame) instr(ins ssa.Instruction) {
 	case *ssa.RunDefers:
 		fr.runDefers(x)
 	case *ssa.Defer:
-		fr.defers = append(fr.defers, deferred{cond: fr.cur, call: x})
+		d := deferred{cond: fr.cur, call: x}
+		for _, li := range fr.loops {
+			if li.blocks[fr.blk] {
+				d.inLoop = true
+			}
+		}
+		if !x.Call.IsInvoke() {
+			if _, isB := x.Call.Value.(*ssa.Builtin); !isB {
+				d.fnv = fr.val(x.Call.Value)
+			}
+		} else {
+			d.fnv = fr.val(x.Call.Value)
+		}
+		for _, a := range x.Call.Args {
+			d.args = append(d.args, fr.val(a))
+		}
+		fr.defers = append(fr.defers, d)
 	case *ssa.Go:
 		fr.goStmt(x)
 	case *ssa.Send, *ssa.Select, *ssa.MakeChan:
